@@ -235,14 +235,15 @@ def _layers(v, tr, upto, depth=0):
         srcs, strip = _layers(v.a[1][0], tr, upto, depth + 1)
     elif v.k == 'merge':
         srcs = []
+        strip = True
         for x in v.a[0]:
             s2, st2 = _layers(x, tr, upto, depth + 1)
             srcs += s2
-            strip = strip or st2
+            strip = strip and st2       # a later unfiltered layer re-introduces the counter names
     elif v.k == 'term' and v.a[0] == 'BitOr' and len(v.a[1]) == 2:
         a, sa = _layers(v.a[1][0], tr, upto, depth + 1)
         b, sb = _layers(v.a[1][1], tr, upto, depth + 1)
-        srcs, strip = a + b, sa or sb
+        srcs, strip = a + b, sa and sb
     elif v.k == 'comp' and v.a[0] == 'DictComp':
         inner = [x for x in values_in(v) if x.k == 'mcall' and x.a[0] == 'items' and isinstance(x.a[1], int)]
         if inner:
@@ -261,6 +262,7 @@ def _layers(v, tr, upto, depth=0):
         if e.kind == 'MCALL' and e.d['name'] == 'update' and e.d.get('recv') == v and e.d['args']:
             s2, st2 = _layers(e.d['args'][0], tr, e.seq, depth + 1)
             srcs = srcs + s2
+            strip = strip and st2
     return srcs, strip
 
 
